@@ -51,6 +51,13 @@ def _pred_cases(draw):
         # consecutive 64-bit ids; the class list is signed, the label / prediction arrays unsigned
         kind, cls = "int", [2**53 + 1 + j for j in range(len(cls))]
         label_dtype = draw(st.sampled_from(["uint64", "int64"]))
+    elif draw(st.integers(0, 6)) == 0:
+        # two classes 0/1 where one side is a boolean mask (`y > 0`) and the other holds integers; the class
+        # list, if given, in either type (True == 1 and False == 0 name the same classes)
+        kind, cls = "int", [0, 1]
+        lab, pred = [i % 2 for i in lab], [i % 2 for i in pred]
+        order = draw(st.one_of(st.none(), st.permutations([0, 1])))
+        label_dtype = draw(st.sampled_from(["mask-labels", "mask-predictions", "bool-classes"]))
     return dict(kind=kind, classes=cls, lab=lab, pred=pred, wk=wk, w=w, order=order, label_dtype=label_dtype)
 
 
@@ -79,7 +86,14 @@ def check_pred(case):
         kwargs = dict(classes=[cls[i] for i in order])
     labels_a = _np_classes(case["kind"], lab)
     pred_a = _np_classes(case["kind"], pred)
-    if case.get("label_dtype"):
+    if case.get("label_dtype") in ("mask-labels", "mask-predictions", "bool-classes"):
+        if case["label_dtype"] == "mask-labels":
+            labels_a, pred_a = np.asarray(lab, dtype=bool), np.asarray(pred, dtype=int)
+        elif case["label_dtype"] == "mask-predictions":
+            labels_a, pred_a = np.asarray(lab, dtype=int), np.asarray(pred, dtype=bool)
+        elif kwargs:
+            kwargs = dict(classes=[bool(c) for c in kwargs["classes"]])
+    elif case.get("label_dtype"):
         labels_a, pred_a = np.asarray(lab, dtype=case["label_dtype"]), np.asarray(pred, dtype=case["label_dtype"])
         if kwargs:
             kwargs = dict(classes=np.asarray(kwargs["classes"], dtype=np.int64))
